@@ -152,6 +152,26 @@ def init_descr(repo, rel, cls, fname, collection, usig, items):
     if fn is None:
         raise TranslationError(rel, c, '%s.%s not found' % (cls, fname))
     stmts = body_wo_doc(fn)
+    # delegation to a helper method:  self._helper(self.<collection>)  with  def _helper(self, xs): for x in xs: ...
+    if len(stmts) == 1 and isinstance(stmts[0], ast.Expr) and isinstance(stmts[0].value, ast.Call):
+        call = stmts[0].value
+        if (isinstance(call.func, ast.Attribute) and isinstance(call.func.value, ast.Name) and call.func.value.id == 'self'
+                and len(call.args) == 1 and not call.keywords and isinstance(call.args[0], ast.Attribute)
+                and isinstance(call.args[0].value, ast.Name) and call.args[0].value.id == 'self' and call.args[0].attr == collection):
+            helper = find_func(c, call.func.attr)
+            if helper is None:
+                raise TranslationError(rel, stmts[0], 'helper %s.%s not found' % (cls, call.func.attr))
+            params = [a.arg for a in helper.args.args]
+            if len(params) != 2 or params[0] != 'self' or helper.args.defaults or helper.args.vararg or helper.args.kwarg or helper.args.kwonlyargs:
+                raise TranslationError(rel, helper, 'helper %s: expected the signature (self, <list>)' % call.func.attr)
+            hb = body_wo_doc(helper)
+            if not (len(hb) == 1 and isinstance(hb[0], ast.For) and isinstance(hb[0].iter, ast.Name) and hb[0].iter.id == params[1]
+                    and isinstance(hb[0].target, ast.Name) and not hb[0].orelse
+                    and not any(isinstance(n, ast.Name) and n.id == params[1] for b in hb[0].body for n in ast.walk(b))):
+                raise TranslationError(rel, helper, 'helper %s: expected one loop `for x in %s:` that does not use the list otherwise' % (call.func.attr, params[1]))
+            loopc = ast.For(target=hb[0].target, iter=call.args[0], body=hb[0].body, orelse=[])
+            ast.copy_location(loopc, hb[0])
+            stmts = [loopc]
     agent, inner, coll = _outer_agents_loop(stmts, rel, fn, (collection,))
     if agent is None or len(inner) != 1:
         raise TranslationError(rel, fn, '%s: expected `for x in self.%s:` around one row loop' % (fname, collection))
